@@ -15,12 +15,14 @@ RULE = (
     "fault enumeration: a catalogue of hostile-but-well-formed client messages (unknown device / property / element, every "
     "new*Vector kind x target vector kind mismatch incl. Light targets, invalid switch / number / base64 text, wrong, non-numeric or "
     "missing BLOB size and format, no children, duplicate children, valid and unknown elements mixed, absent values, message kinds "
-    "a client should not send, getProperties/enableBLOB for unknown targets) x every target vector kind x every insertion position "
+    "a client should not send - also def*/set*Vector naming elements the property does not have -, getProperties/enableBLOB for unknown targets) x every target vector kind x every insertion position "
     "in a session of valid traffic x transport {TCP handler, TTY handler, direct Router.process_message}; 'values' lets Hypothesis "
-    "fill names, values and positions. Oracle: nothing escapes message handling; the sender is still registered with its writer "
+    "fill names, values and positions. A second driver of the same server snoops on the target device (Driver.snoop_device), so "
+    "whatever a hostile client makes the router forward also reaches a mirror inside the server process. Oracle: nothing escapes message handling; the sender is still registered with its writer "
     "open and its handler task running; device snapshots differ from before only at validly named elements and only to the "
     "submitted values; a bystander is still registered and receives the next device update; a valid getProperties and a valid "
-    "write sent next on the same connection are answered / applied after one settle with no padding. Non-trivial: the hostile "
+    "write sent next on the same connection are answered / applied after one settle with no padding; the driver can then publish the attacked property without anything being "
+    "raised. Non-trivial: the hostile "
     "message is not the last message of the session. Distinct = (catalogue entry, target kind, position, transport)."
 )
 ASSUMPTIONS = [
@@ -104,6 +106,18 @@ def catalogue(tk):
     set_text = {"Text": "evil", "Number": "66", "Switch": "Off", "Light": "Alert", "BLOB": VALID["BLOB"]}[tk]
     set_attrs = {"name": e1, "size": "3", "format": ".bin"} if tk == "BLOB" else {"name": e1}
     out.append(("should-not-send-set", session.xml(f"set{tk}Vector", {"device": "DEV", "name": vec, "state": "Alert"}, [{"kind": f"one{tk}", "attrs": set_attrs, "text": set_text}]), {}, True))
+    # ... also with elements the property does not have (whoever mirrors the device - a snooping driver in the same
+    # process, another client - receives them through the router)
+    def_child = {"name": "GHOST"}
+    if tk == "Number":
+        def_child.update({"format": "%g", "min": "0", "max": "1", "step": "1"})
+    def_attrs = {"device": "DEV", "name": vec, "state": "Ok"}
+    if tk != "Light":
+        def_attrs["perm"] = "rw"
+    if tk == "Switch":
+        def_attrs["rule"] = "AnyOfMany"
+    out.append(("should-not-send-def-other-elements", session.xml(f"def{tk}Vector", def_attrs, [{"kind": f"def{tk}", "attrs": def_child, "text": None if tk == "BLOB" else set_text}]), {}, True))
+    out.append(("should-not-send-set-unknown-element", session.xml(f"set{tk}Vector", {"device": "DEV", "name": vec, "state": "Ok"}, [{"kind": f"one{tk}", "attrs": dict(set_attrs, name="NOSUCH"), "text": set_text}]), {}, True))
     out.append(("should-not-send-del", session.xml("delProperty", {"device": "DEV", "name": vec}), {}, True))
     out.append(("should-not-send-message", session.xml("message", {"device": "DEV", "message": "I am a device"}), {}, True))
     out.append(("should-not-send-ping", session.xml("pingRequest", {"uid": "1"}), {}, True))
@@ -142,10 +156,12 @@ def run_case(case):
     """case: {"transport": "tcp"|"tty"|"direct", "hostile": xml, "allowed": {...}, "accepts": bool, "at": position 0..len(VALID_STEPS)}"""
     from indi.message import IndiMessage
 
-    s = session.Session()
+    s = session.Session(specs=[session.SIMPLE_SPEC, session.SNOOPER_SPEC])
     try:
         transport = case["transport"]
         drv = s.dep.drivers[0]
+        # a second driver in the same server process follows DEV (Driver.snoop_device): it is served by the same router
+        s.in_loop(lambda: s.dep.drivers[1].snoop_device("DEV"))
         bystander = s.connect("tcp")
         bystander.send(session.GETPROPS)
         direct_rec = None
@@ -242,6 +258,22 @@ def run_case(case):
             ok = (got == "still-works") if tk == "Text" else (got is not None and abs(float(got) - 1.5) < 1e-9) if tk == "Number" else got == "On"
             if not ok:
                 raise Failure(f"target-property-broken-afterwards:{tk}", f"{where}: a valid write to {vec}.{e2} sent afterwards left {got!r}")
+        # ... and the driver can still publish it (every mirror of it is updated from inside the publication)
+        if tk in TARGETS:
+            vec, e1, e2 = TARGETS[tk]
+            inst_el = getattr(getattr(drv.g, {"TXT": "t", "NUM": "n", "SW": "s", "BLB": "bl", "LGT": "l"}[vec]), "a")
+            newval = {"Text": "published", "Number": 3.25, "Switch": "On", "Light": "Busy", "BLOB": None}[tk]
+            if tk == "BLOB":
+                from indi.device.values import BLOB as _B
+
+                newval = _B(binary=b"pub", format=".bin")
+            try:
+                s.in_loop(lambda: setattr(inst_el, "value", newval))
+            except Failure:
+                raise
+            except Exception as e:  # noqa
+                f = lib_exception_failure(e, "publication-raises-afterwards")
+                raise Failure(f.sig, f"{where}: driver-side update of {vec}.A afterwards: {f.msg}")
         for step in VALID_STEPS[at:]:
             valid(step)
         # bystander still served
